@@ -195,6 +195,8 @@ def c07(run):
     mc_bdd(run, "C07", 4)
     s = record_and_validate(run, 4, "allwf", 0, "model", "allwf", shards=16)
     record_and_validate(run, 7 if t else 6, "random", 5000 if t else 600, "model", "rand")
+    # diagrams that live in another environment (conversions, {definitions}, a second BDDEnv)
+    record_and_validate(run, 4, "uniform", 4000 if t else 1200, "xmodel", "foreign_nv4")
     # a long history of model() calls in ONE environment (hundreds of thousands of distinct nodes pass through it)
     record_and_validate(run, 5, "history", 300000, "model", "history_nv5")
     if t:
@@ -213,6 +215,7 @@ def c20(run):
     mc_bdd(run, "C20", 4)
     s = record_and_validate(run, 4, "allwf", 0, "retain", "allwf", shards=16)
     record_and_validate(run, 7 if t else 6, "random", 5000 if t else 600, "retain", "rand")
+    record_and_validate(run, 4, "uniform", 4000 if t else 1200, "xretain", "foreign_nv4")
     import checks_cli
     checks_cli.cli_model_retain(run, "retain")
     run.nontrivial = s["distinct_functions"] - 2
